@@ -192,13 +192,15 @@ def unjb(bounds):
 
 def real_request(w, req, cache_id=None):
     """req = [kind, source, what, bounds]  kind in 'val'/'mask'."""
-    kind, source, what, bounds = req
+    kind, source, what, bounds = req[:4]
     S = w.sources[source]
+    # an optional 5th element names ANOTHER reference dataset (frame) for the same request
+    target = w.sources[req[4]] if len(req) > 4 else w.R
     bounds = unjb(bounds)
     kw = {} if cache_id is None else dict(cache_id=cache_id)
     if kind == 'val':
-        return S.compute_fixed_resolution_buffer(list(bounds), target_data=w.R, target_cid=S.id[what], **kw)
-    return S.compute_fixed_resolution_buffer(list(bounds), target_data=w.R, subset_state=w.states[what], **kw)
+        return S.compute_fixed_resolution_buffer(list(bounds), target_data=target, target_cid=S.id[what], **kw)
+    return S.compute_fixed_resolution_buffer(list(bounds), target_data=target, subset_state=w.states[what], **kw)
 
 
 def oracle_request(w, req):
@@ -285,6 +287,8 @@ def cache_alphabet(cfg):
         A.append(('v.u:S2@0=0', ['val', 'S2', 'u', jb(with_scalar(0, 0))]))
         A.append(('v.s/cube', ['val', 'S', 's', jb(full)]))
         A.append(('m.roi@0=1/wide1', ['mask', 'S', 'roi', jb(with_scalar(0, 1, [None, (-1, 3, 5), (0, 3, 4)]))]))
+        # the same source and bounds, but asked in the pixel frame of another reference dataset
+        A.append(('v.s@0=0/frame:S2', ['val', 'S', 's', jb(with_scalar(0, 0)), 'S2']))
     else:
         A.append(('v.s/full', ['val', 'S', 's', jb(full)]))
         A.append(('v.s@0=0', ['val', 'S', 's', jb(with_scalar(0, 0))]))
@@ -298,6 +302,7 @@ def cache_alphabet(cfg):
         A.append(('v.u:S2/full', ['val', 'S2', 'u', jb(full)]))
         A.append(('v.s/sub', ['val', 'S', 's', jb([(0, 2, 3), (1, 3, 3)])]))
         A.append(('m.roi@0=1', ['mask', 'S', 'roi', jb(with_scalar(0, 1))]))
+        A.append(('v.s/full/frame:S2', ['val', 'S', 's', jb(full), 'S2']))
     return A
 
 
@@ -340,6 +345,14 @@ def cache_reference(res, w, cfg, alphabet):
     ref = []
     ok = True
     for name, req in alphabet:
+        if len(req) > 4:
+            # request in the frame of another reference dataset: no model map is kept for that frame, the cache
+            # clause only needs the uncached result of the very same request
+            try:
+                ref.append(real_request(w, req))
+            except Exception:
+                ref.append(None)
+            continue
         exp, ninv, nval = oracle_request(w, req)
         try:
             got = real_request(w, req)
